@@ -167,7 +167,7 @@ class MessagePackDocument(HierDictDocument):
             try:
                 ctx.in_document = msgpack.unpackb(b''.join(ctx.in_string))
             except ValueError as e:
-                raise MessagePackDecodeError(' '.join(e.args))
+                raise MessagePackDecodeError(' '.join(str(a) for a in e.args))
 
     def gen_method_request_string(self, ctx):
         """Uses information in context object to return a method_request_string.
@@ -226,7 +226,7 @@ class MessagePackRpc(MessagePackDocument):
 
 
         except ValueError as e:
-            raise MessagePackDecodeError(''.join(e.args))
+            raise MessagePackDecodeError(''.join(str(a) for a in e.args))
 
         try:
             len(ctx.in_document)
